@@ -827,7 +827,7 @@ class LsCandProp(PipeProp):
             events = tr[m["first"] - 1:m["last"]]
             sig = pipe_signature(prop, v["name"], ev, events)
             if ev["ev"] in ("cand", "candfail"):
-                sig += ":" + ev.get("swap", "").split(" ")[0]
+                sig += ":" + (ev.get("kind") or ev.get("swap", "").split(" ")[0])
             payload = {"property": prop, "kind": "lscand", "formula": v["name"], "signature": sig, "instance": inst,
                        "input": gen.render(inst), "seed": info["seed"], "event": {k: ev[k] for k in ev if k not in ("S", "O")},
                        "index": info["index"].get(m["name"], 0)}
@@ -845,7 +845,7 @@ class LsCandProp(PipeProp):
         for c in info["chunks"]:
             for e in common.read_ndjson(c):
                 if e["ev"] == "cand":
-                    k = e["swap"].split(" ")[0]
+                    k = e.get("kind") or e["swap"].split(" ")[0]
                     kinds[k] = kinds.get(k, 0) + 1
         out.coverage.update({"instances": len(info["instances"]), "candidates_validated": ncand,
                              "candidates_enumerated": nenum, "candidates_by_swap": kinds, "formulas": self.INVS})
